@@ -730,6 +730,32 @@ pub(crate) enum AccumulatorState {
     },
 }
 
+/// Whether the morsel accumulators implement `func`. `AccumulatorState::new`
+/// falls back to a COUNT accumulator for anything else, so a caller must not
+/// route other functions here: COUNT_IF, the bitwise aggregates, LISTAGG,
+/// CORR, APPROX_PERCENTILE, ... over a Parquet table all answered COUNT(x).
+pub(crate) fn supports_function(func: &AggregateFunction) -> bool {
+    matches!(
+        func,
+        AggregateFunction::Count
+            | AggregateFunction::CountDistinct
+            | AggregateFunction::Sum
+            | AggregateFunction::Avg
+            | AggregateFunction::Min
+            | AggregateFunction::Max
+            | AggregateFunction::BoolAnd
+            | AggregateFunction::BoolOr
+            | AggregateFunction::AnyValue
+            | AggregateFunction::Arbitrary
+            | AggregateFunction::Stddev
+            | AggregateFunction::StddevPop
+            | AggregateFunction::StddevSamp
+            | AggregateFunction::Variance
+            | AggregateFunction::VarPop
+            | AggregateFunction::VarSamp
+    )
+}
+
 impl AccumulatorState {
     fn new(func: &AggregateFunction, input_type: &DataType) -> Self {
         match func {
